@@ -24,7 +24,7 @@ RULE = ("state = (factory pair, placement, orientation of body 1 and of body 2);
         "6 interleaved call sequences with a third body, tree broad phase; non-trivial = state with contact and a non-identity "
         "rotation of body 2; distinct = distinct state")
 ASSUMPTIONS = ["tolerance 5% of the force magnitude (discretisation noise of the model)", "forces are compared as 3-vectors; torques (about the bodies' centres of mass) only for swap/repeat"]
-CHUNK = 4
+CHUNK = 1
 STATE_TIMEOUT = 600.0
 
 PLACEMENTS = [0, 1, 2, 3]    # indices into c15.BODY_PLACEMENTS: stack small, stack deep, offset, side
@@ -47,9 +47,174 @@ def enumerate_states(tier, seed):
             for oa in ori_a:
                 for ob in (ori_b if tier == "thorough" else ORI_B[:3] if (pl in (0, 2)) else ORI_B[:2]):
                     states.append({"a": fa, "b": fb, "pl": pl, "oa": oa, "ob": ob})
-    return states, {"bound_completed": "36 factory pairs x %s placements x %d orientations of body 1 x %s orientations of body 2, each with "
+    states = hist_states(tier) + states
+    return states, {"bound_completed": "call-history search on live bodies (4 scenes x 2 frames, 24 operations, depth <= %d or closure, canonical-state de-duplication); "
+                                       "36 factory pairs x %s placements x %d orientations of body 1 x %s orientations of body 2, each with "
                                        "swap, 5 rigid motions, repeat, 6 interleaved sequences and the tree broad phase"
-                                       % (("5 (4 contact + touching)", 6, "10") if tier == "thorough" else ("4 contact", 2, "2-3")), "exhaustive": True}
+                                       % ((6, "5 (4 contact + touching)", 6, "10") if tier == "thorough" else (3, "4 contact", 2, "2-3")), "exhaustive": True}
+
+
+# ------------------------------------------------------------------ explicit-state search over call histories on live bodies
+#
+# RigidBody caches derived data lazily (_tetrahedra_points, _com, _aabbs, _aabb_tree) and find_contact_surface re-expresses
+# its first argument in the frame of the second.  State = for each of four live bodies (a, b, c = a box in another rotated
+# frame, d = a copy of b shifted by a few millimetres) the frame it is currently expressed in and which caches are filled
+# (every non-None private attribute, so a newly introduced cache enlarges the state space instead of hiding in it).
+# Transitions = contact_forces / contact_forces(return_details=True) / find_contact_surface(use_aabb_trees=True) on the
+# ordered pairs with contact.  Breadth-first search with canonical-state de-duplication; on every transition the result
+# must equal the result of the same call on freshly built bodies (1e-6 relative) and afterwards every filled cache of every
+# body must equal the value recomputed from its vertices.
+
+HIST_SCENES = [("box", "sphere", 0), ("capsule", "box", 2), ("cylinder", "ellipsoid", 0), ("cube", "cube", 2)]
+HIST_PAIRS = ["ab", "ba", "ac", "ca", "ad", "da", "bc", "cb"]
+HIST_FLAVOURS = ["cf", "cfd", "fst"]
+HIST_FRAMES = [(0, (0.0, 0.0, 0.0)), (25, (800.0, 500.0, 300.0))]
+
+
+def hist_states(tier):
+    out = []
+    for si in range(len(HIST_SCENES)):
+        for fr in range(len(HIST_FRAMES)):
+            out.append({"kind": "hist", "scene": si, "frame": fr, "depth": 3 if tier == "quick" else 6})
+    return out
+
+
+def _hist_poses(desc):
+    fa, fb, pl = HIST_SCENES[desc["scene"]]
+    TA, TB, _ = c15.body_poses({"a": fa, "b": fb, "pl": pl, "ob": 5, "g": 0})
+    TC = hydro.compose(TB, hydro.rigid(9, (0.3, 0.25, -0.2)))
+    TD = TB.copy()
+    TD[:3, 3] += [0.0012, -0.001, 0.0008]     # < 1e-5 x 300: inside numpy.allclose of the far frame
+    G = hydro.rigid(*HIST_FRAMES[desc["frame"]])
+    return {"a": (fa, hydro.compose(G, TA)), "b": (fb, hydro.compose(G, TB)), "c": ("box", hydro.compose(G, TC)), "d": (fb, hydro.compose(G, TD))}
+
+
+def _hist_apply(bodies, op):
+    from distance3d import hydroelastic_contact as hc
+    fl, (x, y) = op[0], op[1]
+    if fl == "cf":
+        i, w12, w21 = hc.contact_forces(bodies[x], bodies[y])
+        return {"flag": bool(i), "w12": np.asarray(w12, dtype=float), "w21": np.asarray(w21, dtype=float)}
+    if fl == "cfd":
+        i, w12, w21, det = hc.contact_forces(bodies[x], bodies[y], return_details=True)
+        return {"flag": bool(i), "w12": np.asarray(w12, dtype=float), "w21": np.asarray(w21, dtype=float)}
+    cs = hc.find_contact_surface(bodies[x], bodies[y], use_aabb_trees=(fl == "fst"))
+    pairs = {}
+    if cs.intersection:
+        for k, (i, j) in enumerate(zip(cs.intersecting_tetrahedra1, cs.intersecting_tetrahedra2)):
+            pairs[(int(i), int(j))] = float(cs.contact_areas[k])
+    return {"flag": bool(cs.intersection), "pairs": pairs}
+
+
+def _hist_key(bodies):
+    key = []
+    for n in sorted(bodies):
+        rb = bodies[n]
+        filled = tuple(sorted(k for k, v in vars(rb).items() if k.startswith("_") and v is not None and k not in ("_youngs_modulus", "_artist")))
+        key.append((n, tuple(np.round(np.asarray(rb.body2origin_, dtype=float), 6).ravel().tolist()), filled))
+    return repr(key)
+
+
+def _hist_cache_check(bodies):
+    """Every filled cache equals the value recomputed from the current vertices."""
+    from distance3d.hydroelastic_contact import _mesh_processing as mp
+    bad = []
+    for n, rb in bodies.items():
+        tp = np.asarray(rb.vertices_)[np.asarray(rb.tetrahedra_)]
+        scale = max(1.0, float(np.max(np.abs(tp))))
+        if rb._tetrahedra_points is not None and not np.array_equal(rb._tetrahedra_points, tp):
+            bad.append((n, "_tetrahedra_points"))
+        if rb._com is not None:
+            vol = np.abs(np.linalg.det(tp[:, 1:] - tp[:, :1])) / 6.0
+            com = (tp.mean(axis=1) * vol[:, None]).sum(axis=0) / vol.sum()
+            if np.linalg.norm(np.asarray(rb._com) - com) > 1e-9 * scale:
+                bad.append((n, "_com"))
+        boxes = np.stack([tp.min(axis=1), tp.max(axis=1)], axis=2)
+        if rb._aabbs is not None and not np.allclose(np.asarray(rb._aabbs), boxes, rtol=0, atol=1e-12 * scale):
+            bad.append((n, "_aabbs"))
+        if rb._aabb_tree is not None:
+            t = rb._aabb_tree
+            leaves = sorted(tuple(np.round(np.asarray(t.aabbs[i]), 9).ravel()) for i in range(int(t.filled_len)) if t.nodes[i, 3] == 1)
+            if leaves != sorted(tuple(np.round(bx, 9).ravel()) for bx in boxes):
+                bad.append((n, "_aabb_tree"))
+    return bad
+
+
+def run_hist(desc):
+    import copy
+    poses = _hist_poses(desc)
+    cls = "%s-%s:%s" % (HIST_SCENES[desc["scene"]][0], HIST_SCENES[desc["scene"]][1], "origin" if desc["frame"] == 0 else "far_rotated_frame")
+    viol, seen = [], set()
+
+    def add(v):
+        if v["sig"] not in seen:
+            seen.add(v["sig"])
+            viol.append(v)
+
+    def fresh():
+        return {n: hydro.make_body(f, T) for n, (f, T) in poses.items()}
+    ops = [(fl, pr) for pr in HIST_PAIRS for fl in HIST_FLAVOURS]
+    ref = {}
+    for op in ops:
+        try:
+            ref[op] = _hist_apply(fresh(), ("cf" if op[0] == "cfd" else "fsb" if op[0] == "fst" else op[0], op[1]))
+        except Exception as e:  # noqa
+            return {"viol": [_viol("contact_forces", "exception_on_fresh_bodies:" + type(e).__name__, cls, {"op": op, "exc": repr(e)[:300]})], "n_eval": 1}
+    n_eval = len(ops)
+    init = fresh()
+    frontier = [([], init)]
+    visited = {_hist_key(init)}
+    n_trans, depth_done = 0, 0
+    contact_ops = 0
+    for depth in range(1, desc["depth"] + 1):
+        nxt = []
+        for hist, bodies in frontier:
+            for op in ops:
+                b2 = copy.deepcopy(bodies)
+                h2 = hist + ["%s(%s,%s)" % (op[0], op[1][0], op[1][1])]
+                try:
+                    res = _hist_apply(b2, op)
+                except Exception as e:  # noqa
+                    add(_viol("contact_forces", "exception_history:" + type(e).__name__, cls, {"history": h2, "exc": repr(e)[:300]}))
+                    continue
+                n_trans += 1
+                n_eval += 1
+                r0 = ref[op]
+                if "w12" in res:
+                    f = max(float(np.linalg.norm(r0["w12"][:3])), 1e-300)
+                    ts = max(float(np.linalg.norm(r0["w12"][3:])), float(np.linalg.norm(r0["w21"][3:])), f)
+                    contact_ops += 1 if r0["flag"] else 0
+                    if res["flag"] != r0["flag"] and max(f, float(np.linalg.norm(res["w12"][:3]))) > 1e-12:
+                        add(_viol("contact_forces", "history_changes_intersection_flag", cls, {"history": h2}))
+                    elif r0["flag"] and not (np.linalg.norm(res["w12"][:3] - r0["w12"][:3]) <= 1e-6 * f and np.linalg.norm(res["w21"][:3] - r0["w21"][:3]) <= 1e-6 * f):
+                        add(_viol("contact_forces" if op[0] == "cf" else "contact_forces(return_details=True)", "history_dependent_force", cls,
+                                  {"history": h2, "fresh_bodies": r0["w12"], "after_history": res["w12"]}))
+                    elif r0["flag"] and not (np.linalg.norm(res["w12"][3:] - r0["w12"][3:]) <= 1e-6 * ts and np.linalg.norm(res["w21"][3:] - r0["w21"][3:]) <= 1e-6 * ts):
+                        add(_viol("contact_forces" if op[0] == "cf" else "contact_forces(return_details=True)", "history_dependent_torque", cls,
+                                  {"history": h2, "fresh_bodies": r0["w12"], "after_history": res["w12"]}))
+                else:
+                    big0 = {k for k, a in r0["pairs"].items() if a >= 1e-9}
+                    big1 = {k for k, a in res["pairs"].items() if a >= 1e-9}
+                    if big0 != big1:
+                        add(_viol("find_contact_surface(use_aabb_trees=True)", "history_dependent_pair_set", cls,
+                                  {"history": h2, "brute_force_on_fresh_bodies": len(big0), "after_history": len(big1),
+                                   "missing": sorted(big0 - big1)[:5], "extra": sorted(big1 - big0)[:5]}))
+                for n, what in _hist_cache_check(b2):
+                    add(_viol("RigidBody", "stale_cache:" + what, cls, {"history": h2, "body": n}))
+                k = _hist_key(b2)
+                if k not in visited:
+                    visited.add(k)
+                    nxt.append((h2, b2))
+        depth_done = depth
+        frontier = nxt
+        if not frontier:
+            break
+    closed = not frontier
+    return {"viol": viol, "n_eval": n_eval, "n_trans": n_trans, "traces": n_trans, "nontrivial_n": len(visited),
+            "hist": {"history_search": {"%s:distinct_states" % cls: len(visited), "%s:transitions" % cls: n_trans,
+                                        "%s:%s" % (cls, "closed" if closed else "depth_%d" % depth_done): 1}},
+            "sample": {"desc": desc, "distinct_states": len(visited), "transitions": n_trans, "closure_reached": closed,
+                       "operations": ["%s(%s,%s)" % (o[0], o[1][0], o[1][1]) for o in ops]} if desc["scene"] == 0 else None}
 
 
 def _viol(entry, kind, cls, detail):
@@ -81,6 +246,12 @@ def close(x, y, scale):
 
 
 def run_state(desc):
+    if desc.get("kind") == "hist":
+        return run_hist(desc)
+    return run_scene(desc)
+
+
+def run_scene(desc):
     from distance3d import hydroelastic_contact as hc
     TA, TB, pl = poses(desc)
     rot2 = "identity_rot2" if desc["ob"] == 0 else "rotated_body2"
